@@ -401,6 +401,8 @@ impl AsyncFleet {
         let mut last_error = None;
 
         for attempt in 0..self.options.retry_policy.max_attempts {
+            #[cfg(feature = "verif-hooks")]
+            crate::verif::probe("fleet.attempt");
             let timeout = state.config.timeout;
             let call = async {
                 let client = ensure_connected(&state).await?;
@@ -455,6 +457,8 @@ impl AsyncFleet {
         let mut last_error = None;
 
         for attempt in 0..self.options.retry_policy.max_attempts {
+            #[cfg(feature = "verif-hooks")]
+            crate::verif::probe("fleet.attempt");
             let timeout = state.config.timeout;
             let call = async {
                 let client = ensure_connected(&state).await?;
